@@ -1,4 +1,4 @@
-"""C13 -- a long-lived project answers like a fresh one (clauses R13.1-R13.9)."""
+"""C13 -- a long-lived project answers like a fresh one (clauses R13.1-R13.11)."""
 from __future__ import annotations
 
 import ast
@@ -17,6 +17,7 @@ EXPLANATION = (
     "R13.5: a handler registered on a *raw* observer that indexes per file either handles folder events or "
     "invalidates wholesale.  R13.6: in the filtered observer every reported resource is the one that was tested "
     "(guard/action agreement), no report is control-dependent on the failure of another resource's watched-test, and a move covers the parents of both ends.  R13.7 (=R09.7): every element entering the cached file listing is dominated by a negative is_ignored test of that element.  R13.8: the not-found path of a module lookup stores nothing into the concluded-data cell.  R13.9: object-lifetime caches (saveit) in the object model never hold values computed from concluded data.  Sufficiency of invalidation for every query is not decided."
+    ' R13.10: the change indicator is compared for (in)equality only and carries mtime and size.  R13.11: re-indexing a module deletes its rows on every path before inserting; the LIKE prefix that deletes a package escapes %, _ and the escape character (first).'
 )
 ASSUMPTIONS = ["required event sets per cache are a hand-confirmed table (sa/rules/c13.py REQUIRED) with reasons"]
 
@@ -57,6 +58,103 @@ def _notify_kinds(loop: ast.For) -> Dict[str, ast.Call]:
 
 
 def check(ctx, res) -> None:
+    _check_main(ctx, res)
+    _indicator_rule(ctx, res)
+    _name_index_rule(ctx, res)
+
+
+def _indicator_rule(ctx, res) -> None:
+    """R13.10: external-change detection compares the stored indicator of a watched file with the current one.  (a) ANY
+    difference means "changed": a restored backup, `cp -p`, `rsync -t`, `tar x` give an OLDER time stamp, so an ordering
+    comparison misses them; (b) the indicator carries the modification time AND the size (an edit within the time stamp's
+    granularity changes only the size)."""
+    idx = ctx.idx
+    mod = "rope.base.resourceobserver"
+    n = 0
+    for f in idx.functions.values():
+        if f.unit.modname != mod:
+            continue
+        ind_names = {t.id for x in walk_local(f.node) if isinstance(x, ast.Assign) and isinstance(x.value, ast.Call)
+                     and call_name(x.value) == "get_indicator" for t in x.targets if isinstance(t, ast.Name)}
+
+        def is_ind(e) -> bool:
+            return (isinstance(e, ast.Call) and call_name(e) == "get_indicator") or (isinstance(e, ast.Name) and e.id in ind_names)
+
+        for x in walk_local(f.node):
+            if isinstance(x, ast.Compare) and (is_ind(x.left) or any(is_ind(c) for c in x.comparators)):
+                if all(isinstance(o, (ast.Is, ast.IsNot)) for o in x.ops):
+                    continue
+                n += 1
+                ok = all(isinstance(o, (ast.Eq, ast.NotEq)) for o in x.ops)
+                res.add("R13.10", f"{f.qualname.split('.', 3)[-1]}|indicator-comparison#{n}", ok, f"{f.unit.rel}:{x.lineno}",
+                        "a watched file counts as changed whenever its indicator differs from the stored one" if ok else
+                        f"`{ast.unparse(x)}` orders the indicators: a file replaced behind rope's back by one with an OLDER time stamp (restored backup, cp -p, "
+                        "rsync -t) or the same time stamp and a smaller size is not reported by validate(); the module cache keeps the stale module",
+                        function=f.qualname)
+    res.floor("R13.10", "indicator comparisons", n, 1)
+    gi = idx.need_func(f"{mod}.ChangeIndicator.get_indicator")
+    rets = [r for r in walk_local(gi.node) if isinstance(r, ast.Return) and r.value is not None]
+    if not rets:
+        raise AnalysisError("anchor=ChangeIndicator.get_indicator: no return")
+    for k, r in enumerate(rets, 1):
+        names = {call_name(c) for c in ast.walk(r.value) if isinstance(c, ast.Call)}
+        missing = sorted({"getmtime", "getsize"} - names)
+        res.add("R13.10", f"ChangeIndicator.get_indicator|components#{k}", not missing, f"{gi.unit.rel}:{r.lineno}",
+                "the indicator carries modification time and size" if not missing else
+                f"the indicator lacks {missing}: an external edit that leaves "
+                + ("the size" if missing == ["getmtime"] else "the time stamp (coarse granularity, or restored with os.utime)")
+                + " unchanged is not seen by validate()", function=gi.qualname)
+
+
+def _name_index_rule(ctx, res) -> None:
+    """R13.11 the sqlite global-name index.  (a) re-indexing a module REPLACES its rows: on every path to the insertion of
+    the module's names the rows of that module were deleted first (else names removed from the source stay importable);
+    (b) the LIKE pattern that deletes a package's sub-modules escapes both wildcards and the escape character itself,
+    the escape character first (else removing `my_pkg` also deletes `myxpkg.mod`)."""
+    idx = ctx.idx
+    up = idx.need_func("rope.contrib.autoimport.sqlite.AutoImport.update_resource")
+    cfg = CFG(up.node)
+    adds = [n for n in cfg.nodes if n.ast is not None and n.kind != "entry"
+            and any(isinstance(c, ast.Call) and call_name(c) == "_add_name" for c in ast.walk(n.ast)) and not isinstance(n.ast, (ast.For, ast.While, ast.If))]
+    if not adds:
+        raise AnalysisError("anchor=sqlite.AutoImport.update_resource: insertion of names (_add_name) not found")
+
+    def deletes(n) -> bool:
+        return n.ast is not None and not isinstance(n.ast, (ast.For, ast.While, ast.If, ast.FunctionDef)) \
+            and any(isinstance(c, ast.Call) and call_name(c) in ("_del_if_exist", "_del_package_if_exist") for c in ast.walk(n.ast))
+
+    for k, a in enumerate(adds, 1):
+        ok = cfg.must_pass_through(cfg.entry.id, a.id, deletes)
+        res.add("R13.11", f"sqlite.AutoImport.update_resource|replace-rows#{k}", ok, f"{up.unit.rel}:{a.lineno}",
+                "the module's old rows are deleted on every path before its names are inserted" if ok else
+                "update_resource can insert the module's names without having deleted its old rows: a name removed from (or renamed in) the source "
+                "stays in the index and is still offered for import; a fresh index does not have it", function=up.qualname)
+    dp = idx.need_func("rope.contrib.autoimport.sqlite.AutoImport._del_package_if_exist")
+    loops = [x for x in walk_local(dp.node) if isinstance(x, ast.For) and isinstance(x.iter, ast.Constant) and isinstance(x.iter.value, str)
+             and any(isinstance(c, ast.Call) and call_name(c) == "replace" for c in ast.walk(x))]
+    if len(loops) != 1:
+        raise AnalysisError("anchor=sqlite.AutoImport._del_package_if_exist: the loop escaping LIKE wildcards not found")
+    specials = loops[0].iter.value
+    stmt = None
+    for u in idx.units.values():
+        if u.modname == "rope.contrib.autoimport.models":
+            for x in ast.walk(u.tree):
+                if isinstance(x, ast.Constant) and isinstance(x.value, str) and "LIKE ? ESCAPE" in x.value:
+                    stmt = x.value
+    if stmt is None:
+        raise AnalysisError("anchor=autoimport.models: the `LIKE ? ESCAPE` statement not found")
+    esc = stmt.split("ESCAPE", 1)[1].strip().strip("'")
+    missing = sorted({"%", "_", esc} - set(specials))
+    first = specials[:1] == esc
+    ok = not missing and first
+    res.add("R13.11", "sqlite.AutoImport._del_package_if_exist|like-escape", ok, f"{dp.unit.rel}:{loops[0].lineno}",
+            f"the package name is escaped for {sorted(set(specials))!r} (escape character first) before it is used as a LIKE prefix" if ok else
+            (f"the package name is used as a LIKE prefix without escaping {missing}: removing or moving the package `my_pkg` also deletes the index rows of "
+             "`myxpkg.*` (`_` matches any character), which a fresh index still has" if missing else
+             f"the escape character {esc!r} is not escaped first: the backslashes added for the wildcards are escaped again"), function=dp.qualname)
+
+
+def _check_main(ctx, res) -> None:
     idx = ctx.idx
     ops = idx.need_class("rope.base.change._ResourceOperations")
 
